@@ -157,6 +157,14 @@ def run(cx, out):
                      lambda y: (decs.append(y) or False) if (isinstance(y, tuple) and len(y) > 5 and y[0] == 'call' and y[1] == 'decode' and y[5] == 'Decode') else False)
             if not any(d[4] and d[4][0] == 'compact::Compact<u32>' for d in decs):
                 why2.append('old count is not read with Compact<u32>::decode')
+            # ... on EVERY path over non-empty input: a path that neither fails nor rewrites the prefix (in place or into the
+            # new buffer) has accepted the input without validating or updating its count
+            for p_ in paths(ne):
+                if p_ and p_[-1][0] in ('ERR', '?ERR', 'PANIC'):
+                    continue
+                if not any(e[0] == 'MUTCALL' and e[1] in ('copy_from_slice', 'extend_from_slice') for e in p_):
+                    why2.append('a path over non-empty input neither fails nor rewrites the count prefix (the old count is not validated there)')
+                    break
             if 'try(decode(' not in nes:
                 why2.append('failure to decode the old count is not propagated')
             # sum: checked_add(old, try_from(len)) -> ok_or -> ?
